@@ -30,7 +30,7 @@ CONSTANTS ZZero, ZOne, ZFromInt(_), ZToInt(_), ZSign(_), ZIsZero(_), ZNeg(_), ZA
           ZAdd(_, _), ZSub(_, _), ZMul(_, _), ZMulSmall(_, _), ZCmp(_, _),
           ZShl(_, _), ZShr(_, _), ZBitLen(_), ZTrailing(_), ZIsOdd(_),
           ZLowZero(_, _), ZBit(_, _), ZPow(_, _), ZPow2(_), ZDivFloor(_, _), ZMod(_, _),
-          MB, ES, EB, PS, FAR, G, DX, Depth, Ops, GROW, WK
+          MB, ES, EB, PS, FAR, G, DX, PT, Depth, Ops, GROW, WK, NS, UNARY
 VARIABLES a, b, st, depth
 INSTANCE MpfAlgo
 vars == <<a, b, st, depth>>
@@ -58,10 +58,21 @@ Expected(op, x, y, p, rnd) ==
   IN FScale(RoundQ(neg, ZAbs(q.n), ZAbs(q.d), p, rnd), q.e)
 Defined(op, y) == ~(op \in {"div", "mod"} /\ y = FZero)
 
+\* unary operations with an integer parameter: integer powers x^n for n in NS, and floor / ceil / nint
+\* (C03, C06).  Checked against PostPowInt / IntPartExpected in the same states (register a only).
+PowOK == st = 2 /\ a # FZero => \A n \in NS, p \in PS, rnd \in Modes :
+            PostPowInt(a, n, p, rnd, [k |-> "f", v |-> APowInt(a, n, p, rnd)])
+RoundIntOK == st = 2 => \A kind \in {"floor", "ceil", "nint"} :
+            ARoundInt(a, CASE kind = "floor" -> "f" [] kind = "ceil" -> "c" [] OTHER -> "n") = IntPartExpected(kind, a, 0, "n")
+EmitPow == st = 2 /\ a # FZero /\ b = FZero => \A n \in NS, p \in PS, rnd \in Modes :
+            LET r == APowInt(a, n, p, rnd) IN PrintT(<<"P", a.s, a.m, a.e, a.bc, n, p, rnd, r.s, r.m, r.e, r.bc>>)
+EmitRoundInt == st = 2 /\ b = FZero => \A rnd \in {"f", "c", "n"} :
+            LET r == ARoundInt(a, rnd) IN PrintT(<<"R", a.s, a.m, a.e, a.bc, rnd, r.s, r.m, r.e, r.bc>>)
+
 Init == a = FZero /\ b = FZero /\ st = 0 /\ depth = 0
 InBounds(r) == r = FZero \/ (r.bc <= MB + GROW /\ r.e >= -EB /\ r.e <= EB)
 Next == \/ st = 0 /\ a' \in U /\ b' = b /\ st' = 1 /\ depth' = depth
-        \/ st = 1 /\ b' \in U /\ a' = a /\ st' = 2 /\ depth' = depth
+        \/ st = 1 /\ b' \in (IF UNARY THEN {FZero} ELSE U) /\ a' = a /\ st' = 2 /\ depth' = depth     \* UNARY: only register a matters
         \/ /\ st = 2 /\ depth < Depth
            /\ \E op \in Ops, p \in PS, rnd \in Modes :
                 /\ Defined(op, b)
